@@ -49,7 +49,7 @@ REGISTRY = {
                      (A + "NoCrashThm", "Api.C03_no_crash"), (A + "NoCrashThm", "Api.C03_no_crash_json"), (A + "NoCrashThm", "Api.no_crash"),
                      (A + "NoCrashThm", "Api.jsonX_of_json"), (A + "NoCrashThm", "Api.C03_crash_counterexamples"),
                      (A + "RecLockThm", "Api.Rec.memo_keyed_by_default_conversion"), (A + "RecMemoThm", "Api.Rec.memo_history_invisible"), (A + "RecMemoThm", "Api.Rec.shared_memo_counterexample"),
-                     (A + "RecSeq", "Api.Rec.early_write_counterexample"), (A + "RecLockThm", "Api.Rec.visit_pinned")],
+                     (A + "RecSeq", "Api.Rec.early_write_counterexample"), (A + "RecLockThm", "Api.Rec.visit_pinned"), (A + "RecSoundThm", "Api.Rec.true_sound")],
         "partial": "no-crash proved in strict mode on Ty.accU (unions of any shape at any depth) without uniqueItems for every datum of Py.jsonX: JSON containers with string keys whose leaves may be "
                    "any object that is not an instance of the JSON classes (tuples, bytes, ...), and likewise for the tree built with the default coercer (no_crashC); non-string keys, JSON-class subclasses and purity "
                    "(input not modified) are decided by the correspondence / harness only",
@@ -237,9 +237,12 @@ REGISTRY["C20"] = {
     "engine": "engine_rec",
     "theorems": [(A + "RecLockThm", "Api.Rec.lock_is_global"), (A + "RecLockThm", "Api.Rec.memo_keyed_by_default_conversion"), (A + "RecMemoThm", "Api.Rec.memo_per_context"), (A + "Rec", "Api.Rec.race_counterexample"), (A + "Rec", "Api.Rec.seq_ok"), (A + "Rec", "Api.Rec.C20_mutex"),
                  (A + "Rec", "Api.Rec.lockInv_run"), (A + "Rec", "Api.Rec.C20_locked_racy_schedule_ok"),
-                 (A + "RecSeq", "Api.Rec.early_write_counterexample"), (A + "RecSeq", "Api.Rec.g1_repaired_exact"), (A + "RecLockThm", "Api.Rec.visit_pinned")],
+                 (A + "RecSeq", "Api.Rec.early_write_counterexample"), (A + "RecSeq", "Api.Rec.g1_repaired_exact"), (A + "RecLockThm", "Api.Rec.visit_pinned"),
+                 (A + "RecSoundThm", "Api.Rec.step_sound"), (A + "RecSoundThm", "Api.Rec.true_sound"), (A + "RecSoundThm", "Api.Rec.true_sound_concurrent")],
     "partial": "the interleaving model covers the recursion analysis (the shared recursion cache): a race counterexample for the unsynchronised protocol and "
-               "mutual exclusion of the locked protocol for every graph and schedule; DFS correctness of a sequential analysis, the lru_cache fills, RecMethod / "
+               "mutual exclusion of the locked protocol for every graph and schedule; soundness of the analysis (an answer True is a type that reaches itself: every graph, "
+               "every history of calls, and two checkers under every schedule, locked or not); the converse (an answer False is a type on no cycle - the direction of row 96) is not proved: "
+               "it is decided on generated class graphs by the correspondence with the model and a reference closure; the lru_cache fills, RecMethod / "
                "LazyConversion lazy initialisation and pre-emption inside C code are not in the model: they are exercised by schedule replay on real threads "
                "and by a stress run",
     "assumptions": ["the only shared-state accesses that matter for the modelled protocol are the reads / writes of the recursion cache, where the harness injects yields",
